@@ -386,13 +386,14 @@ PROPS["C08"] = {
 PROPS["C09"] = {
     "title": "Nearest-point queries return the global minimum",
     "gen_modules": ["Consts", "Basis", "Lines", "FatLine", "Walk", "Nearest", "Roots"],
-    "props_modules": ["C09", "C09Leaf", "C09Gen"],
+    "props_modules": ["C09", "C09Leaf", "C09Gen", "C09Poly"],
     "corr_n": (4000, 100000),
     "search_n": (4000, 80000),
     "technique": "Lean 4 theorems about the WHOLE nearest-point pipeline translated from the Rust source on every run (find_bezier_roots with count_x_axis_crossings, flat_enough, find_x_intercept, Newton, "
                  "de_casteljau_n, derivative_n, subdivide_n; the candidate loop of nearest_t; nearest_point, distance_to, path_closest_point) and a literal hand model of distance_in_bezier_form built on the "
                  "translated Z table; Mathlib calculus over R for the global minimum; bit-exact Float mirror of all of it against the real code; brute-force oracle on the real code",
-    "level_text": "Since session 4 distance_in_bezier_form is GENERATED too (Gen.gen_distance_in_bezier_form; indexed compound assignment in the translator) and proved EQUAL to the literal hand model the theorems below "
+    "level_text": "polynomial_to_bezier (the library's conversion from coefficient form to the Bezier form find_bezier_roots works on; indexed assignment inside nested loops, generated, bit-exact op poly at N = 2..8): "
+                  "C09Poly.quintic_/cubic_/quadratic_bezier_is_polynomial - de_casteljau_n t (polynomial_to_bezier c) = (t, sum c_i t^i) for every t and all coefficients, at the degrees the library uses. " "Since session 4 distance_in_bezier_form is GENERATED too (Gen.gen_distance_in_bezier_form; indexed compound assignment in the translator) and proved EQUAL to the literal hand model the theorems below "
                   "were written for (C09Gen.gen_eq_model, gen_dbf_explicit), so they are theorems about generated code; the driver runs nearest_t / path_closest_point with the generated Bezier form. " "Partial (one named numerical hypothesis). Proved for ALL cubics, query points and t, over any ordered field: quintic_identity - the six points the model of distance_in_bezier_form builds "
                   "(with the translated Z table) evaluate under the generated de_casteljau_n to (t, (C(t)-p).C'(t)), x-coefficients k/5; nearest_is_argmin - whatever the root finder returns, the result is 0, 1 "
                   "or a returned root in (0,1) of least distance among these. Over R: distSq_hasDerivAt (the generated derivative4/de_casteljau3 tangent is the derivative of point_at_pos; d/dt |C-p|^2 = "
